@@ -8,6 +8,7 @@ import (
 	"fmt"
 	"net"
 	"os"
+	"strings"
 	"sync"
 	"testing"
 	"time"
@@ -342,6 +343,105 @@ func c16BindVsTimeout() *sched.Scenario {
 		}}
 }
 
+// ---------------------------------------------------------------- C15
+
+// balance checks the lifecycle log and the resources at quiescence, when every
+// allocation of the scenario must be gone.
+func balance(w *sched.BW, s *vsched.Sched) []string {
+	var out []string
+	open := map[string]int{}
+	w.LifeLock()
+	life := append([]string{}, w.Life...)
+	w.LifeUnlock()
+	for _, l := range life {
+		kind, rest := l[:strings.Index(l, " ")], l[strings.Index(l, " ")+1:]
+		key := kind[:len(kind)-1] + " " + rest
+		if kind == "alloc+" || kind == "alloc-" {
+			key = "alloc " + strings.Fields(rest)[0]
+		}
+		if strings.HasSuffix(kind, "+") {
+			open[key]++
+			if open[key] > 1 {
+				out = append(out, "c15:created-twice-without-delete:"+kind[:len(kind)-1]+"\n"+fmt.Sprint(life))
+			}
+		} else {
+			open[key]--
+			if open[key] < 0 {
+				out = append(out, "c15:deleted-twice-or-without-create:"+kind[:len(kind)-1]+"\n"+fmt.Sprint(life))
+			}
+		}
+	}
+	for k, n := range open {
+		if n > 0 {
+			out = append(out, "c15:created-but-never-deleted:"+strings.Fields(k)[0]+"\n"+k+" "+fmt.Sprint(life))
+		}
+	}
+	if n := w.Srv.AllocationCount(); n != 0 {
+		out = append(out, fmt.Sprintf("c15:allocation-count-%d-after-everything-ended", n))
+	}
+	for _, sk := range w.Net.OpenUDP() {
+		if strings.HasPrefix(sk, "10.9.0.1:") {
+			out = append(out, "c15:relay-socket-open-after-everything-ended\n"+sk)
+		}
+	}
+	if at := s.ActiveTimers(); len(at) > 0 {
+		out = append(out, "c15:timer-armed-after-everything-ended\n"+fmt.Sprint(at))
+	}
+
+	return out
+}
+
+// c15SlowCallback: the allocation's lifetime (1 s) runs out while a lifecycle
+// callback of kind `slow` sleeps for 2 s; afterwards everything must be gone and
+// the created/deleted events must pair up.
+func c15SlowCallback(slow string) *sched.Scenario {
+	return &sched.Scenario{Name: "c15-expiry-during-slow-" + slow + "-callback", Bound: bound(), FreeBound: 3, Opt: opt,
+		Body: func(s *vsched.Sched) (func() []string, func()) {
+			w := sched.NewBW(sched.BCfg{CB: func(kind string) {
+				if kind == slow+"+" {
+					vsched.IdleSleep(2 * time.Second)
+				}
+			}})
+			c := w.NewClient("c1")
+			vsched.Go("client", func() {
+				c.Fire(wire.Refresh, nil) // learn the nonce: answered 401 ...
+				resp := c.Do(wire.Allocate, func(b *wire.B) { udp(b); b.U32(wire.AttrLifetime, 1) })
+				_ = resp
+				if slow != "alloc" {
+					vsched.IdleSleep(500 * time.Millisecond)
+					vsched.Mark()
+					if slow == "perm" {
+						c.Fire(wire.CreatePermission, peer("A"))
+					} else {
+						c.Fire(wire.ChannelBind, chanAttrs(0x4000, "A"))
+					}
+				}
+				vsched.IdleSleep(10 * time.Second)
+			})
+
+			return func() []string { return balance(w, s) }, func() { _ = w.Srv.Close() }
+		}}
+}
+
+// c15EqualDeadlines: allocation lifetime == permission timeout == channel
+// timeout: all timers fire at the same instant, in every order and interleaving.
+func c15EqualDeadlines() *sched.Scenario {
+	return &sched.Scenario{Name: "c15-expiry-vs-permission-and-channel-timers", Bound: bound(), FreeBound: 3, Opt: opt,
+		Body: func(s *vsched.Sched) (func() []string, func()) {
+			w := sched.NewBW(sched.BCfg{Perm: time.Second, Chan: time.Second, CB: func(string) { vsched.Point("callback", "cb") }})
+			c := w.NewClient("c1")
+			vsched.Go("client", func() {
+				c.Do(wire.Allocate, func(b *wire.B) { udp(b); b.U32(wire.AttrLifetime, 1) })
+				c.Do(wire.ChannelBind, chanAttrs(0x4000, "A"))
+				c.Do(wire.CreatePermission, peer("B"))
+				vsched.Mark()
+				vsched.IdleSleep(10 * time.Second)
+			})
+
+			return func() []string { return balance(w, s) }, func() { _ = w.Srv.Close() }
+		}}
+}
+
 func run(t *testing.T, prop string, scs ...*sched.Scenario) {
 	r := rep.New(prop)
 	defer r.Write()
@@ -356,3 +456,6 @@ func run(t *testing.T, prop string, scs ...*sched.Scenario) {
 func TestC02Sched(t *testing.T) { run(t, "C02", c02ExpiryRace()) }
 func TestC04Sched(t *testing.T) { run(t, "C04", c04TwoConns()) }
 func TestC16Sched(t *testing.T) { run(t, "C16", c16TwoBinds(), c16BindVsTimeout()) }
+func TestC15Sched(t *testing.T) {
+	run(t, "C15", c15SlowCallback("alloc"), c15SlowCallback("perm"), c15SlowCallback("chan"), c15EqualDeadlines())
+}
